@@ -79,6 +79,18 @@ Theorem C01_allocated_fresh : forall m,
 Proof. exact tf_alloc_fresh. Qed.
 Print Assumptions C01_allocated_fresh.
 
+(* template/var.go, varName: the name generated for an unnamed parameter of ANY named type is never on the
+   reserved list - never `mock` / `callInfo` (identifiers of the templates themselves), a keyword or a basic type
+   name.  The harness compares [reserved_names] with the list parsed from var.go and [gen_name] with the names
+   the data model reports, on every run. *)
+Theorem C01_generated_names_avoid_reserved : forall tn, ~ In (gen_name tn) reserved_names.
+Proof. intros tn. apply smem_false, gen_name_not_reserved. Qed.
+Print Assumptions C01_generated_names_avoid_reserved.
+Example C01_generated_names_examples :
+  map gen_name [B "Mock"; B "CallInfo"; B "String"; B "Func"; B "Ret"; B "error"; B "hidden"; B "Client"]
+  = [B "mockParam"; B "callInfoParam"; B "stringParam"; B "funcParam"; B "ret"; B "err"; B "hiddenMoqParam"; B "client"].
+Proof. vm_compute. reflexivity. Qed.
+
 (* ------------------------------------------------------------------ witnesses: every guard is needed *)
 Definition ty (n : String.string) : tyitems := [IUse KType (B n)].
 Definition par (n e : String.string) (t : tyitems) : pdata :=
